@@ -4,6 +4,8 @@
   `ALV.Lemmas.C19*`.  `K` is any linearly ordered field with a floor (ℚ, ℝ).
 -/
 import ALV.Lemmas.C19
+import ALV.Lemmas.C19Shapes
+import Mathlib.Tactic.NormNum
 import ALV.Common.Audit
 
 namespace ALV.Props.C19
@@ -75,6 +77,84 @@ example : moduloCounter (.strm [(1:Rat), 2, 4]) (.num 5) (.num (-2)) 6 = [1, 0, 
 example : moduloCounter (.strm [(1:Rat), 2, 4, 4]) (.strm [3, 2, 5, 1/2]) (.strm [7, 7, -1/3, 0]) 9
     = [1, 1, 0, 1/6] := by decide +kernel
 example : (Arg.num (3:Rat)).expand 2 = (Arg.strm [3, 3, 3]).expand 2 := by decide +kernel
+
+/-! ## durations and piecewise-linear shapes -/
+
+/-- **C19.line.1** `line(dur, begin, end, finish)` has `⌊dur + 1/2⌋` samples
+`begin + i·(end-begin)/(dur-finish)` — whenever the slope exists (`dur - finish ≠ 0`). -/
+theorem line_eq_spec (dur b e : K) (fin : Bool) (h : dur - (if fin then 1 else 0) ≠ 0) :
+    line dur b e fin = .ok (lineSpec dur b e fin) := line_ok dur b e fin h
+
+theorem line_length (dur b e : K) (fin : Bool) :
+    (lineSpec dur b e fin).length = ⌊dur + 1 / 2⌋.toNat := by
+  simp [lineSpec, durLen, floor_def, half_eq]
+
+theorem line_sample (dur b e : K) (fin : Bool) (i : Nat) (h : i < (lineSpec dur b e fin).length) :
+    (lineSpec dur b e fin)[i] = b + ((i : ℤ) : K) * (e - b) / (dur - (if fin then 1 else 0)) := by
+  simp [lineSpec]
+
+/-- **C19.line.2** the hypothesis of `line_eq_spec` is forced: at the two excluded points the code
+divides by zero before yielding, while the property asks for 0 samples (`line(0)`, `fadein(0)`)
+resp. the single sample `begin` (`line(1, finish=True)`) — defect D8. -/
+theorem line_excluded_points (b e : K) :
+    (line 0 b e false = .error "ZeroDivisionError" ∧ lineSpec 0 b e false = []) ∧
+    (line 1 b e true = .error "ZeroDivisionError" ∧ lineSpec 1 b e true = [b]) := by
+  have f0 : ⌊(0 : K) + half⌋ = 0 := by
+    rw [half_eq, Int.floor_eq_iff]; norm_num
+  have f1 : ⌊(1 : K) + half⌋ = 1 := by
+    rw [half_eq, Int.floor_eq_iff]; norm_num
+  refine ⟨⟨line_err _ _ _ _ (by simp), ?_⟩, ⟨line_err _ _ _ _ (by simp), ?_⟩⟩
+  · rw [zero_add] at f0; simp [lineSpec, durLen, floor_def, f0]
+  · simp [lineSpec, durLen, floor_def, f1]
+
+/-- **C19.line.3** the fades are the lines 0 → 1 and 1 → 0 of `⌊dur + 1/2⌋` samples. -/
+theorem fadein_eq_spec (dur : K) (h : dur ≠ 0) : fadein dur = .ok (lineSpec dur 0 1 false) :=
+  line_ok dur 0 1 false (by simpa using h)
+theorem fadeout_eq_spec (dur : K) (h : dur ≠ 0) : fadeout dur = .ok (lineSpec dur 1 0 false) :=
+  line_ok dur 1 0 false (by simpa using h)
+
+/-- **C19.dur.1** `ones` / `zeros`: `⌊dur + 1/2⌋` copies of the value (endless without a
+duration), for every number `n` of samples read. -/
+theorem ones_zeros_eq_spec (v : K) (dur : Option K) (n : Nat) :
+    constGen v dur n = constSpec v dur n := constGen_eq v dur n
+
+/-- **C19.dur.2** `impulse`: `⌊dur + 1/2⌋` samples, `one` first, then only `zero`
+(any item type). -/
+theorem impulse_eq_spec {β : Type} (dur : Option K) (one zero : β) (n : Nat) :
+    impulse dur one zero n = impulseSpec dur one zero n := impulse_eq dur one zero n
+
+/-- **C19.adsr.1** `adsr` with positive attack, decay and release times is the piecewise-linear
+envelope 0 → 1 → s, s held, s → 0. -/
+theorem adsr_eq_spec (dur a d s r : K) (ha : 0 < a) (hd : 0 < d) (hr : 0 < r) :
+    adsr dur a d s r = .ok (adsrSpec dur a d s r) := adsr_ok dur a d s r ha hd hr
+
+/-- **C19.adsr.2** it lasts `⌊dur + 1/2⌋` samples when attack, decay and release fit in. -/
+theorem adsr_length (dur a d s r : K) (h : durLen a + durLen d + durLen r ≤ durLen dur) :
+    (adsrSpec dur a d s r).length = durLen dur := adsrSpec_length dur a d s r h
+
+/-- **C19.adsr.3** a zero attack, decay or release time makes the code divide by zero (D8),
+although the envelope of the property is well defined there (that segment is empty). -/
+theorem adsr_excluded_points (dur a d s r : K) (h : a = 0 ∨ d = 0 ∨ r = 0) :
+    adsr dur a d s r = .error "ZeroDivisionError" := adsr_err dur a d s r h
+
+/-- **C19.attack.1** `attack(a, d, s)`: 0 → 1 over `a`, 1 → s over `d`, then `s` for ever … -/
+theorem attack_number_eq_spec (a d x : K) (n : Nat) (ha : a ≠ 0) (hd : d ≠ 0) :
+    attack a d (.num x) n = .ok (attackSpec a d x (List.replicate n x) n) :=
+  attack_num_ok a d x n ha hd
+
+/-- … or, for an iterable sustain, decaying to its first item and continuing with the others. -/
+theorem attack_stream_eq_spec (a d x : K) (xs : List K) (n : Nat) (ha : a ≠ 0) (hd : d ≠ 0) :
+    attack a d (.strm (x :: xs)) n = .ok (attackSpec a d x xs n) :=
+  attack_strm_ok a d x xs n ha hd
+
+example : line (4 : Rat) 1 3 false = .ok [1, 3/2, 2, 5/2] := by decide +kernel
+example : line (7/2 : Rat) 1 3 true = .ok [1, 9/5, 13/5, 17/5] := by decide +kernel
+example : adsr (21/2 : Rat) (5/2) 2 (1/2) 3
+    = .ok [0, 2/5, 4/5, 1, 3/4, 1/2, 1/2, 1/2, 1/2, 1/3, 1/6] := by decide +kernel
+example : (0 : Rat) < 5/2 ∧ durLen (5/2 : Rat) + durLen (2 : Rat) + durLen (3 : Rat) ≤ durLen (21/2 : Rat) := by
+  decide +kernel
+example : impulse (some (7/2 : Rat)) "one" "zero" 9 = ["one", "zero", "zero", "zero"] := by decide +kernel
+example : attack (2 : Rat) 2 (.strm [1/2, 7, 8]) 9 = .ok [0, 1/2, 1, 3/4, 7, 8] := by decide +kernel
 
 end ALV.Props.C19
 
